@@ -480,7 +480,8 @@ func (st *c04State) gradientOne(cbase, nbase, nstops, t int) {
 		st.applyBoth(&n)
 	}
 	// the gradient value goes to a register outside the stop range if possible: use CSEL = cbase-1
-	g := color.RGBA{uint8(nstops), uint8(cbase) | uint8(t%4)<<6, uint8(nbase) | 0x80 | uint8(t&1)<<6, 0}
+	// the two high bits of the red value are reserved: NSTOPS is the low 6 bits whatever they hold
+	g := color.RGBA{uint8(nstops) | uint8((cbase+nbase+t)%4)<<6, uint8(cbase) | uint8(t%4)<<6, uint8(nbase) | 0x80 | uint8(t&1)<<6, 0}
 	s2 := rec.Call{M: rec.MSetCSel, Adj: uint8(cbase-1) & 63}
 	st.applyBoth(&s2)
 	gc := rec.Call{M: rec.MSetCReg, C: ivg.RGBAColor(g)}
